@@ -109,6 +109,32 @@ def bounded_reread(want, cols):
     return ""
 
 
+def joint_compute(want, cols):
+    """two frames opened on the same dataset with different geometry= and evaluated in ONE graph: each computes with its own column"""
+    import dask
+    from spatialpandas.io import read_parquet_dask
+    path, g = LAST_PARQUET
+    geos = [c for c in want["cols"] if c != "v"]              # the geometry columns the stored frame really has
+    others = [c for c in geos if c != want["active"]]
+    if not others:
+        return ""
+    a = read_parquet_dask(path, geometry=want["active"])
+    b = read_parquet_dask(path, geometry=others[-1])
+    for first, second, na, nb in ((a, b, want["active"], others[-1]), (b, a, others[-1], want["active"])):
+        ra, rb = dask.compute(first, second)
+        got = (getattr(ra, "_geometry", None), getattr(rb, "_geometry", None))
+        if got != (na, nb):
+            return (f"read_parquet_dask(geometry={na!r}) and read_parquet_dask(geometry={nb!r}) on the same dataset, computed together: "
+                    f"active geometries {got}, expected {(na, nb)}")
+        pa_ = [p.compute()._geometry for p in first.to_delayed()] + [p.compute()._geometry for p in second.to_delayed()]
+        parts = dask.compute(*first.to_delayed(), *second.to_delayed())
+        gotp = [p._geometry for p in parts]
+        wantp = [na] * first.npartitions + [nb] * second.npartitions
+        if gotp != wantp:
+            return f"partitions of two frames on the same dataset computed in one graph carry active geometries {gotp}, expected {wantp}"
+    return ""
+
+
 def apply(obj, h, tmpdir, counter):
     import dask.dataframe as dd
     from spatialpandas.io import read_parquet_dask
@@ -244,7 +270,7 @@ def run(tier: str, seed: int) -> int:
                             continue
                         ok, why = conforms(got, want, obj, cols)
                         if ok and h["op"] == "parquet_roundtrip" and want["kind"] == "dask" and want["active"] not in ("UNSPEC", "NONE"):
-                            why = bounded_reread(want, cols)
+                            why = bounded_reread(want, cols) or joint_compute(want, cols)
                             ok = not why
                         if not ok:
                             chk.violation(f"{colsname}|{h['op']}|{why[:60]}", " ; ".join(desc) + f"\n  {why}\n  implementation state {got}; model state "
